@@ -1,7 +1,7 @@
 (* Pinned statements of C09 (generated once by tools/mkpins.py from coq/props/C09.v, then committed). *)
 From DV Require Import Model.Base Model.NameCheck Model.Parser Model.Header Model.Readers Model.Uncompress
   Model.Mutate Spec.NameSpec Spec.PacketSpec Spec.RecordSpec Proofs.Hoare Proofs.HeaderBits Proofs.InsertLemmas
-  Spec.PlainSpec Proofs.WalkValues Proofs.SetTtl Proofs.WalkSkip Proofs.PlainWf Proofs.InsertSpec Proofs.SetTtlInv Proofs.DeleteInv Proofs.SetNameInv props.C09.
+  Spec.PlainSpec Proofs.WalkValues Proofs.SetTtl Proofs.WalkSkip Proofs.PlainWf Proofs.InsertSpec Proofs.SetTtlInv Proofs.DeleteInv Proofs.SetNameInv Proofs.ReplaceInv props.C09.
 Check (C09_insert_appends : forall sec rr v it s',
   insert_core sec rr (v, it) = (s', Ok tt) ->
   exists p1 ins,
@@ -99,3 +99,12 @@ Check (C09_set_name_on_decompressed : forall nm v it s' qls qt lA lN lR r x,
     length A' = length A /\ length Nn' = length Nn /\ length R' = length R /\
     (forall w0, u16_at (pp_packet v) 2 w0 -> u16_at (pp_packet (fst s')) 2 w0)).
 Print Assumptions C09_set_name_on_decompressed.
+Check (C09_set_ip_on_decompressed : forall v it ip s' qls qt lA lN lR r x,
+  dinv v -> bytes_ok ip -> reading (pp_packet v) qls qt lA lN lR -> In (r, x) (lA ++ lN ++ lR) ->
+  it_offset it = Some (rv_off r) -> it_name_end it = rv_name_end r ->
+  m_set_ip ip (v, it) = (s', Ok tt) ->
+  dinv (fst s') /\ snd s' = it /\ ip_type_len (rv_type r) (length ip) /\
+  exists lA' lN' lR' L1 L2, reading (pp_packet (fst s')) qls qt lA' lN' lR' /\
+    length lA' = length lA /\ length lN' = length lN /\ length lR' = length lR /\
+    lA ++ lN ++ lR = L1 ++ (r, x) :: L2 /\ lA' ++ lN' ++ lR' = L1 ++ (rv_at r (RdRaw ip) (rv_off r), RdRaw ip) :: L2).
+Print Assumptions C09_set_ip_on_decompressed.
